@@ -50,6 +50,13 @@ var (
 	poolWallets = []string{"w1", "w2", "w3"}
 )
 
+func (w *world) checkIn(name string) {
+	if w.checkIns == nil {
+		w.checkIns = map[string]time.Time{}
+	}
+	w.checkIns[name] = time.Now()
+}
+
 func poolNodes() []string { return append(append([]string{}, poolHosts...), poolClients...) }
 
 // alias makes the real id/address strings intern to the same number as their logical names.
@@ -129,6 +136,9 @@ func (w *world) applyPOp(o *POp) (coq string, mon []string) {
 		if err != nil {
 			res = presErr(e)
 		}
+		if err == nil {
+			w.checkIn(o.Node)
+		}
 		o.Result = e.Class
 		obsCoq = fmt.Sprintf("ObRes %s %s", res, cBig(w.totalCredit()))
 		// C03 monitor: refused iff client and spendable balance below the minimum
@@ -176,13 +186,32 @@ func (w *world) applyPOp(o *POp) (coq string, mon []string) {
 			if pn == o.Node {
 				continue
 			}
-			if pnode, e := w.st.GetNode(store.NodeID(nodeIDOf(pn))); e == nil && time.Since(pnode.LastSeen) < store.ExpireInterval-2*time.Second {
-				liveReported[pn] = true
+			// (by the harness's own record of who checked in when, not by what the store says now)
+			if _, e := w.st.GetNode(store.NodeID(nodeIDOf(pn))); e == nil {
+				if at, ok := w.checkIns[pn]; ok && time.Since(at) < store.ExpireInterval-2*time.Second {
+					liveReported[pn] = true
+				}
 			}
 		}
 		var resp *pool.UpdateResponse
 		var err error
 		o.trace = w.traced(func() { resp, err = w.update(o.Node, o.Peers, o.Block) })
+		if w.updateCtxDone {
+			// nobody waited for the hosts' answers: give the instructions time to arrive (until no
+			// new call has shown up for a while; a loaded machine takes longer)
+			last, quiet := -1, 0
+			for t0 := time.Now(); time.Since(t0) < 2*time.Second && quiet < 3; {
+				time.Sleep(40 * time.Millisecond)
+				w.mu.Lock()
+				n := len(w.calls)
+				w.mu.Unlock()
+				if n == last {
+					quiet++
+				} else {
+					last, quiet = n, 0
+				}
+			}
+		}
 		e := classify(err)
 		o.Result = e.Class
 		nowS := int64(0)
@@ -232,6 +261,9 @@ func (w *world) applyPOp(o *POp) (coq string, mon []string) {
 			res = presErr(e)
 		}
 		o.Inv, o.Act, o.Disc = inv, active, disc
+		if err == nil || e.Class == "low" {
+			w.checkIn(o.Node)
+		}
 		if perr == nil && (err == nil || e.Class == "low") {
 			for pn := range liveReported {
 				tracked := false
@@ -343,7 +375,27 @@ func (w *world) applyPOp(o *POp) (coq string, mon []string) {
 		w.bstore.setDeposit(acct, new(big.Int).Add(w.bstore.deposit(acct), amt))
 		opCoq = fmt.Sprintf("ODeposit %s %s", cN(w.t.id(o.Wallet)), cBig(amt))
 		obsCoq = fmt.Sprintf("ObRes POk %s", cBig(w.totalCredit()))
+	case "hangup":
+		// the connection a host registered on goes away; the host may keep checking in elsewhere
+		w.mu.Lock()
+		n := len(w.conns[o.Node])
+		w.mu.Unlock()
+		if n > 0 {
+			w.closeConn(o.Node, n-1)
+		}
+		opCoq = "OAdvance 0"
+		obsCoq = fmt.Sprintf("ObRes POk %s", cBig(w.totalCredit()))
+	case "peer":
+		// a request for hosts: it changes nothing the ledger or the keep-alive bookkeeping sees
+		var perr error
+		o.trace = w.traced(func() { _, perr = w.peer(o.Node, o.Num, o.Kind) })
+		o.Result = classify(perr).Class
+		opCoq = "OAdvance 0"
+		obsCoq = fmt.Sprintf("ObRes POk %s", cBig(w.totalCredit()))
 	case "advance":
+		for k, at := range w.checkIns {
+			w.checkIns[k] = at.Add(-time.Duration(o.D))
+		}
 		shiftTime(w.st.Store, time.Duration(o.D))
 		opCoq = "OAdvance " + cZ(o.D)
 		obsCoq = fmt.Sprintf("ObRes POk %s", cBig(w.totalCredit()))
@@ -491,7 +543,8 @@ func runPoolSeq(cfg worldCfg, ops []*POp) (coq string, mon []string, done []*POp
 func strp(s string) *string { return &s }
 
 var (
-	priceChoices   = []string{"1000", "1", "1000000000000000000", "18446744073709551617", "10000000000000000000000000000000000000000"}
+	priceChoices = []string{"1000", "1", "1000000000000000000", "18446744073709551617", "10000000000000000000000000000000000000000",
+		"18446744073709551616", "18446744073709551616"} // with an elapsed time of exactly one interval the unit charge is 2^64
 	elapsedChoices = []int64{0, 1e6, 30e9, 59999999999, 60e9, 61e9, 300e9, 4611686018427387904}
 )
 
